@@ -46,7 +46,7 @@ meta.update({
         "demo_cmd": f"cd <worktree> && PYTHONPATH=<worktree> "
                     f"/venv/bin/python seeded/{sid}/demo.py",
         "check_cmd": f"git -C /repo apply seeded/{sid}/patch.diff && "
-                     f"/venv/bin/python -m sa.check {prop}; "
+                     f"/venv/bin/python -m sa.check {os.environ.get('SEED_CHECK', prop)}; "
                      "git -C /repo checkout -- .",
         "check_exit_with_change": r.returncode,
         "rules_reporting": rules,
